@@ -131,6 +131,11 @@ impl Lexicon {
             let (result, nin, nout) = rdr.read_field(bytes, &mut output);
             let record_end = match result {
                 ReadFieldResult::InputEmpty => {
+                    if field_cnt == 0 && nout == 0 {
+                        // Only blank lines were left at the end of the input.
+                        bytes = &bytes[nin..];
+                        continue;
+                    }
                     features_len += nin + 1;
                     record_end_pos += nin;
                     true
